@@ -179,6 +179,10 @@ pub fn main_for(pid: &str) {
                 let tree_text: String = parts[1].split(' ').skip(1).map(|t| match t.find('@') { None => t.to_string(), Some(i) => { let tail = &t[i..]; if tail.ends_with('(') { format!("{}(", &t[..i]) } else { t[..i].to_string() } } }).collect::<Vec<_>>().join(" ");
                 (case.to_string(), crate::treeparse::parse_anodes(&tree_text), Some(parts.get(2).unwrap_or(&"").split(';').filter(|s| !s.is_empty()).map(parse_op).collect()))
             }
+            None if pid == "C15" && k < c15_enum_len(&a.tier) => {
+                let j = c15_enum_index(k, &a.tier, a.seed);
+                (format!("c{}", k), vec![c15_enum_tree(j, &pool)], Some(vec![Op::Dedup((0, 0)), Op::Dedup((0, 0))]))
+            }
             None => {
                 let cfg = GenCfg { max_nodes: 18, max_depth: 5, doc_root: 80, fragment: 35, adjacent_text: false, empty_text: false, xml_space: 15, ..GenCfg::default() };
                 let ntrees = 1 + r.below(2);
@@ -359,6 +363,47 @@ fn self_contradictory(xot: &Xot, root: Node) -> bool {
 }
 
 /// redundant declarations: repeat in-scope bindings lower down, under the same or another prefix
+/// C15, exhaustive small-scope stream: one namespace u, one prefix p, the tree  r( x  c( d ) )  — two branches, the second two
+/// deep.  r declares nothing or xmlns:p=u; each of x, c, d declares nothing / xmlns=u / xmlns:p=u / both and has or has not an
+/// attribute in u; c and d are in no namespace or in u.  A declaration a name needs and the scope lacks is added on the element
+/// itself, so every tree serialises and no prefix is ever bound to two namespaces (no shadowing): deduplicate_namespaces has to
+/// keep every one of these trees serialisable and its names unchanged, and a second call has to remove nothing.
+const C15_ENUM_TOTAL: usize = 2 * 8 * 16 * 16;
+fn c15_enum_len(tier: &str) -> usize { if tier == "thorough" { C15_ENUM_TOTAL } else { C15_ENUM_TOTAL / 4 } }
+fn c15_enum_index(k: usize, tier: &str, seed: u64) -> usize { if tier == "thorough" { k } else { 4 * k + (seed as usize % 4) } }
+fn c15_enum_tree(j: usize, pool: &Pool) -> ANode {
+    let u = pool.uris[1];
+    let p = pool.prefixes[1];
+    // pool.names: a, a/u1, a/u2, a/u3, b, b/u1, ...; pool.attr_names: x, x/u1, x/u2, y, ...
+    let (n_r, n_x, n_c, n_cu, n_d, n_du) = (pool.names[0], pool.names[4], pool.names[8], pool.names[9], pool.names[12], pool.names[13]);
+    let at = pool.attr_names[1];
+    let mut j = j;
+    let mut take = |m: usize| -> usize { let v = j % m; j /= m; v };
+    let decl = |o: usize| -> Vec<(usize, usize)> { match o { 0 => vec![], 1 => vec![(0, u)], 2 => vec![(p, u)], _ => vec![(0, u), (p, u)] } };
+    let r_ns = if take(2) == 1 { vec![(p, u)] } else { vec![] };
+    let mk = |name: usize, in_u: bool, o: usize, attr: bool, kids: Vec<ANode>, scope_default: bool, scope_p: bool| -> (ANode, bool, bool) {
+        let mut ns = decl(o);
+        let has_d = scope_default || ns.iter().any(|(q, _)| *q == 0);
+        let mut has_p = scope_p || ns.iter().any(|(q, _)| *q == p);
+        if attr && !has_p { ns.push((p, u)); has_p = true; }
+        let mut has_d2 = has_d;
+        if in_u && !has_d && !has_p { ns.insert(0, (0, u)); has_d2 = true; }
+        (ANode::Elem { name, ns, attrs: if attr { vec![(at, "v".to_string())] } else { vec![] }, kids }, has_d2, has_p)
+    };
+    let r_p = !r_ns.is_empty();
+    let (xo, xa) = (take(4), take(2) == 1);
+    let (co, ca, cu) = (take(4), take(2) == 1, take(2) == 1);
+    let (d_o, da, du) = (take(4), take(2) == 1, take(2) == 1);
+    let (x, _, _) = mk(n_x, false, xo, xa, vec![], false, r_p);
+    // c's scope is needed for d before c is built: compute it the same way
+    let c_ns = decl(co);
+    let c_p = r_p || c_ns.iter().any(|(q, _)| *q == p) || ca;
+    let c_d = c_ns.iter().any(|(q, _)| *q == 0) || (cu && !c_ns.iter().any(|(q, _)| *q == 0) && !c_p);
+    let (d, _, _) = mk(if du { n_du } else { n_d }, du, d_o, da, vec![], c_d, c_p);
+    let (c, _, _) = mk(if cu { n_cu } else { n_c }, cu, co, ca, vec![d], false, r_p);
+    ANode::Elem { name: n_r, ns: r_ns, attrs: vec![], kids: vec![x, c] }
+}
+
 fn add_redundant(r: &mut Rng, a: &mut ANode, pool: &Pool, scope: &Vec<(usize, usize)>) {
     match a {
         ANode::Doc(kids) => { for k in kids.iter_mut() { add_redundant(r, k, pool, scope); } }
